@@ -111,6 +111,58 @@ theorem paramNames_ok (ctx : Lscr.Ctx) (d : Bytes) (a : Nat) : ∀ (xs : List Na
     have hge : (x : Int) ≥ 0 := by omega
     simp only [bind, Except.bind, hge, if_true, nameAt, pyGet_some _ _ _ hx.2, hl, pure, Except.pure, Bool.or_self]
 
+theorem pyIn_leaves_false (pre : List Str) (acc : List Node) (h : Leaves .globalVar pre acc) (n : Str) (p : Int) (hn : n ∉ pre) :
+    pyIn (.leaf .globalVar (.s n) p) acc = false := by
+  induction h with
+  | nil => rfl
+  | @cons m x ms xs hx _ ih =>
+    obtain ⟨q, rfl⟩ := hx
+    have hne : m ≠ n := fun e => hn (by simp [e])
+    have ih' := ih (fun hm => hn (by simp [hm]))
+    unfold pyIn at ih' ⊢
+    simp only [List.any_cons, ih', Bool.or_false]
+    simp [Node.pyEq, Node.cls, Node.name, hne]
+
+theorem leaves_append {cls : Leaf} {a b : List Str} {x y : List Node} (h1 : Leaves cls a x) (h2 : Leaves cls b y) : Leaves cls (a ++ b) (x ++ y) := by
+  induction h1 with
+  | nil => exact h2
+  | cons hr _ ih => exact All2.cons hr ih
+
+/-- the handler's own table of global names (`count C` entries): one `GlobalVariable` per entry when the names are distinct -/
+theorem handlerGlobals_ok (ctx : Lscr.Ctx) (d : Bytes) (a : Nat) : ∀ (xs : List Nat) (ns : List Str) (nl : Nat) (pre : List Str) (acc : List Node),
+    NamesAt ctx.names xs ns → (pre ++ ns).Nodup → Leaves .globalVar pre acc →
+    CodeAt d (a + 2 * nl) (xs.flatMap be16) →
+    ∃ l, handlerGlobals ctx d (a : Int) xs.length nl acc = .ok (acc ++ l) ∧ Leaves .globalVar ns l := by
+  intro xs ns nl pre acc h
+  induction h generalizing nl pre acc with
+  | nil => intro _ _ _; exact ⟨[], by simp [handlerGlobals], All2.nil⟩
+  | @cons x n xs ns hx _ ih =>
+    intro hnd hacc hc
+    simp only [List.flatMap_cons] at hc
+    have hnp : n ∉ pre := by
+      intro hm
+      rw [List.nodup_append] at hnd
+      exact hnd.2.2 n hm n (by simp) rfl
+    have hnd' : ((pre ++ [n]) ++ ns).Nodup := by simpa [List.append_assoc] using hnd
+    have hpy := pyIn_leaves_false pre acc hacc n (2 * (nl : Int) + (a : Int)) hnp
+    have hacc' : Leaves .globalVar (pre ++ [n]) (acc ++ [.leaf .globalVar (.s n) (2 * (nl : Int) + (a : Int))]) :=
+      leaves_append hacc (All2.cons ⟨_, rfl⟩ All2.nil)
+    obtain ⟨l, hl, hleaves⟩ := ih (nl + 1) (pre ++ [n]) _ hnd' hacc' (by
+      have := hc.right
+      simp only [be16_length] at this
+      have e : a + 2 * nl + 2 = a + 2 * (nl + 1) := by omega
+      rwa [e] at this)
+    refine ⟨.leaf .globalVar (.s n) (2 * (nl : Int) + (a : Int)) :: l, ?_, All2.cons ⟨_, rfl⟩ hleaves⟩
+    simp only [List.length_cons, handlerGlobals]
+    rw [read16 d (a + 2 * nl) x _ hc (by omega) _ (by omega)]
+    have hlt : x < ctx.names.length := by
+      rcases Nat.lt_or_ge x ctx.names.length with hh | hh
+      · exact hh
+      · rw [List.getElem?_eq_none_iff.mpr hh] at hx; cases hx.2
+    have hcond : (x : Int) ≥ 0 ∧ (x : Int) < (ctx.names.length : Int) := by omega
+    simp only [bind, Except.bind, hcond, and_self, if_true, nameOr_some _ _ _ hx.2, hpy, Bool.false_eq_true, if_false, hl]
+    simp [List.append_assoc]
+
 /-- `parse_frb_func_names`: the first field of every 42-byte record -/
 theorem funcNames_ok (d : Bytes) (names : List Str) : ∀ (xs : List Nat) (ns : List Str) (a : Nat), NamesAt names xs ns →
     (∀ j x, xs[j]? = some x → ∃ rest, CodeAt d (a + 42 * j) (be16 x ++ rest)) →
